@@ -2,6 +2,18 @@
 PY = "/venv/bin/python"
 
 REGISTRY = {
+    "C09": {
+        "modules": ["tunable"],
+        "level": "proof",
+        "level_text": "Repository side of the tunable machinery: setup_tunables binds every public tunable attribute to the entry at the documented key (string formula over prefix/name/subtable/attribute, "
+                      "loop invariant over dir(cls)), with the descriptor's topic type, exactly one of set/setDefault per tunable according to writeDefault, in a fresh per-instance table; "
+                      "__get__/__set__ go through that table and touch no other entry; key injectivity lemmas; structural check of the type tables.",
+        "level_note": "This is the property where the repository code contributes least: 'reads return the latest value from either side', type strings and set/setDefault semantics are ntcore's behaviour "
+                      "(assumed contracts, exercised by the native stand-in with the real ntcore); the typing-based type-hint plumbing (_get_topic_type, tunable.__init__/__set_name__) is bounded-only.",
+        "design_ref": "DESIGN.md section 5 C09",
+        "replay": [PY, "native/replay_c09.py"],
+        "standins": {"quick": {"bounded: real magic_tunable + real ntcore: keys, type strings, per-instance values, writeDefault vs existing values, interleaved python/NT writes; @feedback keys and types": [PY, "native/replay_c09.py"]}},
+    },
     "C12": {
         "modules": ["smdef"],
         "level": "proof",
@@ -146,4 +158,5 @@ REGISTRY["C14"] = {"modules": _ROBOT_MODS, "verify_modules": ["selector", "robot
                                  "gets on_enable once, one on_iteration(t) per loop iteration with non-decreasing t, on_disable once; no other mode is touched. Discovery half (__init__): see level_note.",
                    "level_note": _ROBOT_NOTE + " The discovery loop of AutonomousModeSelector.__init__ (importlib/glob/inspect reflection) is not under contract; it is covered by a bounded native stand-in only.",
                    "design_ref": "DESIGN.md section 5 C14", "claimed": False}
-
+REGISTRY["C11"]["module_groups"] = [_ROBOT_MODS, ["tunable"]]
+REGISTRY["C11"]["standins"] = {"quick": {"bounded: real collect_feedbacks + real ntcore: keys (explicit / get_ prefix removed), topic types from return hints, published values": [PY, "native/replay_c09.py"]}}
